@@ -215,7 +215,12 @@ func TestC20ClosedLoop(t *testing.T) {
 			case <-time.After(20 * time.Second):
 			}
 		}()
-		shadow := polling.VerifNewPredictor(minI, initI, maxI)
+		type candidate struct {
+			seq   []uint64
+			carry uint64
+		}
+		cands := []candidate{{}}
+		var localThisRound uint64
 		first := w.servers[0].first
 		start := w.clk.Now()
 		producedAt := func(now time.Time) int {
@@ -266,7 +271,8 @@ func TestC20ClosedLoop(t *testing.T) {
 			}
 		}
 		w.onRequest.Store(&hook)
-		slowRounds, overruns := 0, 0
+		slowRounds, overruns, localPuts := 0, 0, 0
+		localDuringReq := rapid.Bool().Draw(t, "localduringreq")
 		slowLoop := rapid.Bool().Draw(t, "slowloop")
 		before := storeNext(w.subSt, first)
 		wait := initI
@@ -297,6 +303,23 @@ func TestC20ClosedLoop(t *testing.T) {
 				case rq := <-reqArrived:
 					w.clk.Add(time.Duration(rq))
 					consumedReq.Add(rq)
+					// sometimes the node's own consensus stores the next certificate while the
+					// request is in flight and no peer has it yet (progress without a new
+					// certificate from the network: the one case in which the wait is extended)
+					if localDuringReq && rapid.Bool().Draw(t, "localnow") {
+						idx := int(storeNext(w.subSt, first) - first)
+						peersHave := 0
+						for _, sv := range w.servers {
+							peersHave = max(peersHave, len(sv.certs))
+						}
+						if idx >= peersHave && idx < len(w.chain) {
+							if err := w.subSt.Put(ctx, w.chain[idx]); err != nil {
+								t.Fatalf("HARNESS: local put: %v", err)
+							}
+							localPuts++
+							localThisRound++
+						}
+					}
 					reqRelease <- struct{}{}
 				case err := <-loopDone:
 					vev.Fail(t, c20, "C20/loop/exited", "the polling loop exited: %v", err)
@@ -312,24 +335,57 @@ func TestC20ClosedLoop(t *testing.T) {
 			after := storeNext(w.subSt, first)
 			progress := after - before
 			before = after
-			want := shadow.Update(progress)
 			req := time.Duration(consumedReq.Load())
 			pendingReq.Store(0)
-			if req == 0 {
-				if diff := d - want; diff < -time.Microsecond || diff > time.Microsecond {
-					vev.Fail(t, c20, "C20/loop/delay-not-predicted-interval", "round %d: store advanced by %d, a predictor fed that progress says %v, the loop waits %v (no mock time passed during its requests, so no extension is due); settings min=%v initial=%v max=%v pattern=%s period=%v; trace %v", r, progress, want, d, minI, initI, maxI, pattern, period, trace)
-				}
-			} else {
-				// the time from this poll to the next is the predicted interval, extended only by
-				// the time the requests took and by at most half the interval
-				slowRounds++
-				if req > want {
-					overruns++
+			// A certificate stored locally while a request was in flight is seen by the loop either
+			// in this round (if it looks at the store again before the round ends) or at the start
+			// of the next one: both attributions of that certificate are admissible. The harness
+			// keeps every admissible sequence of per-round progress values and drops those the
+			// observed waits contradict; the run fails when none is left.
+			fits := func(want time.Duration) bool {
+				if req == 0 {
+					diff := d - want
+					return diff >= -time.Microsecond && diff <= time.Microsecond
 				}
 				total := req + d
 				upper := max(want, req) + min(req, want/2)
-				if total < want-time.Microsecond || total > upper+time.Microsecond {
-					vev.Fail(t, c20, "C20/loop/delay-with-request-time", "round %d: store advanced by %d, predicted interval %v, the requests took %v of mock time, the loop then waits %v: %v from poll to poll is outside [%v, %v]; settings min=%v initial=%v max=%v pattern=%s; trace %v", r, progress, want, req, d, total, want, upper, minI, initI, maxI, pattern, trace)
+				return total >= want-time.Microsecond && total <= upper+time.Microsecond
+			}
+			var next []candidate
+			var wants []time.Duration
+			for _, c := range cands {
+				opts := []candidate{{seq: append(append([]uint64(nil), c.seq...), progress+c.carry)}}
+				if localThisRound > 0 && progress >= localThisRound {
+					opts = append(opts, candidate{seq: append(append([]uint64(nil), c.seq...), progress+c.carry-localThisRound), carry: localThisRound})
+				}
+				for _, o := range opts {
+					pr := polling.VerifNewPredictor(minI, initI, maxI)
+					var want time.Duration
+					for _, p := range o.seq {
+						want = pr.Update(p)
+					}
+					wants = append(wants, want)
+					if fits(want) {
+						next = append(next, o)
+					}
+				}
+			}
+			if len(next) > 16 {
+				next = next[:16]
+			}
+			want := wants[0]
+			if len(next) == 0 {
+				if req == 0 {
+					vev.Fail(t, c20, "C20/loop/delay-not-predicted-interval", "round %d: store advanced by %d, a predictor fed the progress so far says %v (admissible attributions: %v), the loop waits %v (no mock time passed during its requests, so no extension is due); settings min=%v initial=%v max=%v pattern=%s period=%v; trace %v", r, progress, want, wants, d, minI, initI, maxI, pattern, period, trace)
+				}
+				vev.Fail(t, c20, "C20/loop/delay-with-request-time", "round %d: store advanced by %d, predicted interval %v (admissible attributions: %v), the requests took %v of mock time, the loop then waits %v: %v from poll to poll is outside [interval, max(interval, request) + min(request, interval/2)]; settings min=%v initial=%v max=%v pattern=%s; trace %v", r, progress, want, wants, req, d, req+d, minI, initI, maxI, pattern, trace)
+			}
+			cands = next
+			localThisRound = 0
+			if req > 0 {
+				slowRounds++
+				if req > want {
+					overruns++
 				}
 			}
 			if progress == 1 {
@@ -363,7 +419,7 @@ func TestC20ClosedLoop(t *testing.T) {
 			}
 			vev.Label(c20, "cadence-checked")
 		}
-		vev.Case(c20, vev.Digest("loop", pattern, period, minI, initI, maxI, rounds, nPeers), sawOne && sawOther, "closed-loop", "pattern:"+pattern, fmt.Sprintf("progress-1-and-other:%v", sawOne && sawOther), fmt.Sprintf("slow-round:%v", slowRounds > 0), fmt.Sprintf("round-longer-than-interval:%v", overruns > 0))
+		vev.Case(c20, vev.Digest("loop", pattern, period, minI, initI, maxI, rounds, nPeers), sawOne && sawOther, "closed-loop", "pattern:"+pattern, fmt.Sprintf("progress-1-and-other:%v", sawOne && sawOther), fmt.Sprintf("slow-round:%v", slowRounds > 0), fmt.Sprintf("round-longer-than-interval:%v", overruns > 0), fmt.Sprintf("local-certificate-during-request:%v", localPuts > 0))
 		vev.Sample(c20, func() any {
 			tr := trace
 			if len(tr) > 30 {
